@@ -213,8 +213,14 @@ def sec_output(rep):
     rep.under_contract(Output.apply_pdf_alphas_alphaqed_xir_xif, Output.apply_pdf, MaskedPDF.xfxQ2, MaskedPDF.__getattr__)
     calls = []
 
-    class Res:
-        def __init__(s, tag):
+    from yadism.esf.result import ESFResult
+
+    class Res(ESFResult):
+        """a real result object (x, Q2, nf, orders present) whose apply_pdf records its call; the
+        points are NOT listed by increasing Q2 or x: ret[obs][i] must belong to self[obs][i]"""
+
+        def __init__(s, tag, x=0.3, Q2=10.0):
+            super().__init__(x, Q2, 4)
             s.tag = tag
 
         def apply_pdf(s, *args):
@@ -224,7 +230,7 @@ def sec_output(rep):
     out = Output()
     out["pids"] = [21, 1]
     out["xgrid"] = {"grid": [0.1, 1.0], "log": True}
-    out["F2_total"] = [Res("a"), Res("b")]
+    out["F2_total"] = [Res("a", 0.5, 100.0), Res("b", 0.1, 10.0)]
     out["XSHERANC_charm"] = [Res("c")]
     out["FL_light"] = None
     out["g1_bottom"] = []
@@ -236,7 +242,7 @@ def sec_output(rep):
     ok = isinstance(ret, PDFOutput) and dict(ret) == {"F2_total": [{"tag": "a"}, {"tag": "b"}], "XSHERANC_charm": [{"tag": "c"}], "g1_bottom": []}
     ok = ok and [c[0] for c in calls] == ["a", "b", "c"] and all(len(c[1]) == 7 and all(x is y for x, y in zip(c[1][:5], exp_args[:5])) and c[1][5:] == (0.5, 2.0) for c in calls)
     rep.cases += 1
-    rep.add(ob_eval("C17/Output.apply_pdf_alphas_alphaqed_xir_xif/post", ok, detail=f"observables={list(ret)} calls={[c[0] for c in calls]}"))
+    rep.add(ob_eval("C17/Output.apply_pdf_alphas_alphaqed_xir_xif/post", ok, detail=f"observables={list(ret)} calls={[c[0] for c in calls]}", inputs={} if ok else {"F2_total": "[a: (x=0.5, Q2=100), b: (x=0.1, Q2=10)]", "XSHERANC_charm": "[c]", "FL_light": "None", "g1_bottom": "[]", "returned": str(dict(ret)), "calls": str([c[0] for c in calls])}, replay={"confirmed": True, "python": "Output with the listed observables; apply_pdf_alphas_alphaqed_xir_xif(pdf, a_s, a_q, 0.5, 2.0)"}))
     # apply_pdf delegates to apply_pdf_theory with the stored theory card
     seen = []
     o2 = Output()
